@@ -53,7 +53,7 @@ PARTS = (["geometry", "tables", "pointwise", "dual", "bc"], ["bcmodel", "mass_sc
 def _start_harness(ctx, strength):
     """Three harness processes in parallel (numba JIT of the scalar and of the vector sparse assemblers dominates)."""
     ex = ThreadPoolExecutor(max_workers=4)
-    to = 3600 if strength == "thorough" else 1200
+    to = 9000 if strength == "thorough" else 3000      # generous: numba JIT is 3-4x slower on a loaded machine
     return ex, [ex.submit(ctx.run_impl, "c10_impl.py", {"strength": strength, "parts": p}, to, 4) for p in PARTS]
 
 
